@@ -1,3 +1,4 @@
+mod drive_ctx;
 mod drive_eval;
 mod drive_ops;
 mod enc;
@@ -44,6 +45,20 @@ fn main() {
             };
             out.flush().unwrap();
             eprintln!("drive-ops family={} records={}", fam, n);
+        }
+        "ctx-vectors" => {
+            let inp = arg(&args, "--in").expect("--in");
+            let mut out = std::io::BufWriter::new(std::fs::File::create(&out_path).expect("open out"));
+            let n = drive_ctx::replay_vectors(inp, &mut out);
+            out.flush().unwrap();
+            eprintln!("ctx-vectors sequences={}", n);
+        }
+        "ctx-random" => {
+            let mut out = std::io::BufWriter::new(std::fs::File::create(&out_path).expect("open out"));
+            let len: usize = arg(&args, "--len").and_then(|s| s.parse().ok()).unwrap_or(40);
+            let k = drive_ctx::random_sequences(seed, n, len, &mut out);
+            out.flush().unwrap();
+            eprintln!("ctx-random sequences={}", k);
         }
         "replay-case" => {
             // re-run one recorded case (source text + context variables) against the current tree
